@@ -100,9 +100,7 @@ pub struct Flow {
 }
 
 fn spk(p: &mut Prng) -> Script {
-    let mut v = vec![0x00, 0x14];
-    v.extend(p.bytes(20));
-    Script::from(v)
+    crate::worlds::ct::addressable_script(p)
 }
 
 pub fn build(spec: &BlindSpec) -> Flow {
